@@ -137,7 +137,18 @@ func c15Crash(kind string) {
 					nModel++
 				}
 			}
-			emit("c15", "CRASH", hs(label), strconv.Itoa(nModel), boolField(pt.partial), joinHex(modelCalls))
+			// ... and in the directory model's (Model/CrashDirs.v): the calls that change which files and directories exist
+			nDir := 0
+			var dirCalls []string
+			for i, c := range calls {
+				if c == "data:MkdirAll" || c == "data:Remove" || c == "data:Create" || c == "data:Rmdir" {
+					dirCalls = append(dirCalls, c)
+					if i < pt.n-1 {
+						nDir++
+					}
+				}
+			}
+			emit("c15", "CRASH", hs(label), strconv.Itoa(nModel), boolField(pt.partial), joinHex(modelCalls), strconv.Itoa(nDir), joinHex(dirCalls))
 			died := cs.ctl.dead
 			for _, c := range recs {
 				if died {
@@ -163,12 +174,8 @@ func c15Crash(kind string) {
 				s.Get(b, k, "")
 				s.Head(b, k, "")
 			}
-			// and it keeps working: the key can be written and read again
-			s.Put(b, "a/b", []byte("after"), mA)
-			s.Get(b, "a/b", "")
-			// the hierarchy of the store: a common prefix stands for keys; one without any key is the
-			// leftover of a write that never happened (known finding D34 when it is the directory of an
-			// upload that was killed)
+			// the hierarchy of the store: a common prefix stands for keys; one without any key is the leftover
+			// of a write that never happened (known finding D34 where the crash model predicts it)
 			{
 				dl := do(s.h, Req{Method: "GET", Path: "/" + b + "?delimiter=%2F"})
 				fl := do(s.h, Req{Method: "GET", Path: "/" + b})
@@ -185,13 +192,14 @@ func c15Crash(kind string) {
 						}
 					}
 				}
-				msg := fmt.Sprintf("%s after %s: delimiter listing %d, common prefixes without a key %q (keys %q)", kind, label, dl.Status, phantom, keys)
-				if dl.Status == 200 && fl.Status == 200 && len(phantom) == 0 {
-					emit("c15", "GOOD", hs(msg))
-				} else {
-					emit("c15", "BAD", hs("S:common-prefix-without-a-key "+msg))
+				if dl.Status != 200 || fl.Status != 200 {
+					phantom = append(phantom, fmt.Sprintf("<listing answers %d / %d>", dl.Status, fl.Status))
 				}
+				emit("c15", "DIRS", joinHex(phantom), hs(fmt.Sprintf("%s after %s: common prefixes without a key %q (keys %q)", kind, label, phantom, keys)))
 			}
+			// and it keeps working: the key can be written and read again
+			s.Put(b, "a/b", []byte("after"), mA)
+			s.Get(b, "a/b", "")
 			s.end()
 			nontrivial(kind + "|" + label)
 		}
